@@ -39,6 +39,12 @@ func NewArrayOf(values []core.Value) *Array {
 }
 
 func (t *Array) MarshalJSON() ([]byte, error) {
+	// an array without items is still an array: a nil slice
+	// (NewArrayWith(), NewArrayOf(nil)) must not be encoded as null
+	if t.items == nil {
+		return []byte("[]"), nil
+	}
+
 	return jettison.MarshalOpts(t.items, jettison.NoHTMLEscaping())
 }
 
